@@ -59,6 +59,7 @@ class Extractor:
         self.label = "HEAD"
         self.stack: Set[str] = set()
         self.idvars: Set[str] = set()
+        self.param_props: Dict[str, str] = {}
 
     def one(self, kind: str) -> Rec:
         return {self.label: Counter({(kind, ""): 1})}
@@ -133,13 +134,21 @@ class Extractor:
                 return self.one("R")
             return self.one("@" + norm(recv).split(".")[-1].lower())
         if own and name.startswith("_write"):
-            r: Rec = {}
-            for a in c.args:
-                p = _prop(a)
-                if p is not None:
-                    self.label = p
-                    r = self.touch(p)
-            return _add(r, self.inline(name, param_label=True))
+            # the record id may travel as an argument (self._write_times(file, PROPERTY.X, key)): it becomes the label where the helper writes it
+            m = self.cls.methods.get(name)
+            binding = {}
+            if m is not None:
+                params = m.params[1:]
+                for i, a in enumerate(c.args):
+                    p = _prop(a)
+                    if p is not None and i < len(params):
+                        binding[params[i]] = p
+            saved = self.param_props
+            self.param_props = binding
+            try:
+                return self.inline(name, param_label=True)
+            finally:
+                self.param_props = saved
         return {}
 
     def inline(self, name: str, param_label: bool = False) -> Rec:
@@ -216,8 +225,10 @@ class Extractor:
                 r = _add(r, self.expr(i.context_expr))
             return _add(r, self.block(st.body, param_label))
         if param_label and isinstance(st, ast.Expr) and isinstance(st.value, ast.Call) and attr_tail(st.value) == "write_byte" and len(st.value.args) > 1 \
-                and isinstance(st.value.args[1], ast.Name):
-            return {}  # `write_byte(fp, propid)`: the id handed in by the caller, already taken as the label
+                and isinstance(st.value.args[1], ast.Name) and st.value.args[1].id in self.param_props:
+            # `write_byte(fp, propid)`: the id handed in by the caller is written here: the record starts
+            self.label = self.param_props[st.value.args[1].id]
+            return self.touch(self.label)
         r = {}
         for ch in ast.iter_child_nodes(st):
             if isinstance(ch, ast.expr):
